@@ -3,6 +3,7 @@
 package main
 
 import (
+	"bytes"
 	"encoding/binary"
 	"encoding/hex"
 	"fmt"
@@ -27,8 +28,64 @@ type segSpec struct {
 	Flags  int    `json:"flags"`
 	ID     int    `json:"id"`
 	Seq    uint32 `json:"seq"`
-	Fill   string `json:"fill"` // payload pattern
+	Literal bool  `json:"literal"` // print payload and observed segments as complete literals
+	Fill   string `json:"fill"` // payload rule: rand (LCG), mostly-ff (LCG), ff, zero
+	PSeed  uint32 `json:"pseed"`
 }
+
+// segLcgNext mirrors Segment_corr.lcg_next.
+func segLcgNext(x uint32) uint32 { return 1664525*x + 1013904223 }
+
+// segFill writes the payload rule of s into pay (mirrors Segment_corr.payload_of).
+func segFill(s *segSpec, pay []byte) {
+	x := s.PSeed
+	for i := range pay {
+		switch s.Fill {
+		case "ff":
+			pay[i] = 0xff
+		case "zero":
+			pay[i] = 0
+		case "mostly-ff":
+			x = segLcgNext(x)
+			pay[i] = 0xff
+			if (x>>20)&15 == 0 {
+				pay[i] = byte(x >> 8)
+			}
+		default:
+			x = segLcgNext(x)
+			pay[i] = byte(x >> 24)
+		}
+	}
+}
+
+// segPsrc renders the payload bytes as a Segment_corr.psrc literal: the rule when it reproduces them, else hex.
+func segPsrc(s *segSpec, pay []byte) string {
+	if s != nil && len(pay) > 0 {
+		want := make([]byte, len(pay))
+		segFill(s, want)
+		if bytes.Equal(want, pay) && !s.Literal {
+			n := hx.N(uint64(len(pay)))
+			switch s.Fill {
+			case "ff":
+				return hx.App("Segment_corr.PRep", "255", n)
+			case "zero":
+				return hx.App("Segment_corr.PRep", "0", n)
+			case "mostly-ff":
+				return hx.App("Segment_corr.PMix", hx.N(uint64(s.PSeed)), n)
+			default:
+				return hx.App("Segment_corr.PLcg", hx.N(uint64(s.PSeed)), n)
+			}
+		}
+	}
+	if len(pay) > segMaxLit {
+		panic(fmt.Sprintf("segment: literal payload of %d bytes", len(pay)))
+	}
+	return hx.App("Segment_corr.PHex", segHex(pay))
+}
+
+const segMaxLit = 12000 // coqc overflows its stack on string literals beyond ~15000 bytes
+
+func segHex(b []byte) string { return "\"" + hex.EncodeToString(b) + "\"%string" }
 
 func (s *segSpec) cs() int {
 	if s.V4 {
@@ -67,23 +124,7 @@ func segBuild(c *hx.Ctx, s *segSpec) []byte {
 		pkt[cs+13] = byte(s.Flags)
 		binary.BigEndian.PutUint32(pkt[cs+4:cs+8], s.Seq)
 	}
-	pay := pkt[hl:]
-	switch s.Fill {
-	case "ff":
-		for i := range pay {
-			pay[i] = 0xff
-		}
-	case "zero":
-	case "mostly-ff":
-		for i := range pay {
-			pay[i] = 0xff
-			if c.Intn(16) == 0 {
-				pay[i] = byte(c.Intn(256))
-			}
-		}
-	default:
-		copy(pay, c.RandBytes(len(pay)))
-	}
+	segFill(s, pkt[hl:])
 	return pkt
 }
 
@@ -92,6 +133,7 @@ type segResult struct {
 	segs     [][]byte
 	err      bool
 	panicked bool
+	hl       int // header length in effect (pipeline: as corrected by CorrectHdrLen), 0 = unknown
 }
 
 func segCollect(run func(yield func(seg []byte) error) error) (r segResult) {
@@ -121,30 +163,58 @@ func segDirect(tcp bool, pkt []byte, hl, cs, gso uint16) segResult {
 
 func segPipe(vnet [10]byte, pkt []byte) segResult {
 	buf := append([]byte(nil), pkt...)
-	return segCollect(func(y func([]byte) error) error {
+	hl := 0
+	r := segCollect(func(y func([]byte) error) error {
 		p, err := tio.VerifDecodeRead(vnet, buf)
 		if err != nil {
 			return err
 		}
+		hl = int(p.GSO.HdrLen)
 		return tio.SegmentSuperpacket(p, y)
 	})
+	r.hl = hl
+	return r
 }
 
 func runSegment(c *hx.Ctx) {
 	cw := c.NewCaseWriter("From Coq Require Import String.\nFrom NV Require Import corr.Segment_corr.", "Segment_corr.case", "Segment_corr.check_case", 24)
-	hexs := func(b []byte) string { return "\"" + hex.EncodeToString(b) + "\"%string" }
-
-	resLit := func(r segResult) string {
+	// the observed segments: headers as literals; a payload equal to the input bytes at the running offset as a reference
+	resLit := func(s *segSpec, pkt []byte, r segResult) string {
 		if r.err || r.panicked {
 			return hx.None()
 		}
-		lens := make([]uint64, len(r.segs))
-		var all []byte
-		for i, s := range r.segs {
-			lens[i] = uint64(len(s))
-			all = append(all, s...)
+		hl := r.hl
+		if hl == 0 {
+			hl = s.hl()
 		}
-		return hx.Some(hx.Tuple(hx.NList(lens), hexs(all)))
+		items := make([]string, len(r.segs))
+		off := hl
+		for i, sg := range r.segs {
+			h := sg
+			if len(h) > hl {
+				h = sg[:hl]
+			}
+			rest := sg[len(h):]
+			var pay string
+			if !s.Literal && len(rest) > 0 && off+len(rest) <= len(pkt) && bytes.Equal(rest, pkt[off:off+len(rest)]) {
+				pay = hx.App("Segment_corr.ORef", hx.N(uint64(off)), hx.N(uint64(len(rest))))
+			} else {
+				if len(rest) > segMaxLit {
+					rest = rest[:segMaxLit] // differs from the input anyway: the comparison in Coq fails and reports it
+				}
+				pay = hx.App("Segment_corr.OLit", segHex(rest))
+			}
+			off += len(rest)
+			items[i] = hx.App("Segment_corr.OSeg", segHex(h), pay)
+		}
+		return hx.Some(hx.List(items))
+	}
+	inLit := func(s *segSpec, pkt []byte) (string, string) {
+		k := s.hl()
+		if k > len(pkt) {
+			k = len(pkt)
+		}
+		return segHex(pkt[:k]), segPsrc(s, pkt[k:])
 	}
 	head := func(b []byte) string {
 		if len(b) > 140 {
@@ -176,7 +246,9 @@ func runSegment(c *hx.Ctx) {
 
 	addDirect := func(kind string, s *segSpec, tcp bool, pkt []byte, hl, cs, gso int, nontrivial bool) {
 		r := segDirect(tcp, pkt, uint16(hl), uint16(cs), uint16(gso))
-		cw.Add(hx.App("Segment_corr.CDirect", hx.Bool(tcp), hexs(pkt), hx.N(uint64(hl)), hx.N(uint64(cs)), hx.N(uint64(gso)), resLit(r), hx.Bool(r.panicked)),
+		r.hl = hl
+		hh, pp := inLit(s, pkt)
+		cw.Add(hx.App("Segment_corr.CDirect", hx.Bool(tcp), hh, pp, hx.N(uint64(hl)), hx.N(uint64(cs)), hx.N(uint64(gso)), resLit(s, pkt, r), hx.Bool(r.panicked)),
 			kind, nontrivial && !r.err && !r.panicked, desc("direct", s, pkt, map[string]any{"hl": hl, "cs": cs, "gso": gso, "tcp": tcp}, r))
 	}
 	vnetOf := func(flags, gsoType uint8, hdrLen, gsoSize, csumStart, csumOff uint16) (v [10]byte) {
@@ -187,7 +259,8 @@ func runSegment(c *hx.Ctx) {
 		v := vnetOf(flags, gsoType, hdrLen, gsoSize, csumStart, csumOff)
 		r := segPipe(v, pkt)
 		vh := hx.App("Segment.mkVhdr", hx.N(uint64(flags)), hx.N(uint64(gsoType)), hx.N(uint64(hdrLen)), hx.N(uint64(gsoSize)), hx.N(uint64(csumStart)), hx.N(uint64(csumOff)))
-		cw.Add(hx.App("Segment_corr.CPipe", vh, hexs(pkt), resLit(r), hx.Bool(r.panicked)),
+		hh, pp := inLit(s, pkt)
+		cw.Add(hx.App("Segment_corr.CPipe", vh, hh, pp, resLit(s, pkt, r), hx.Bool(r.panicked)),
 			kind, nontrivial && !r.err && !r.panicked,
 			desc("pipe", s, pkt, map[string]any{"vnet": []int{int(flags), int(gsoType), int(hdrLen), int(gsoSize), int(csumStart), int(csumOff)}}, r))
 	}
@@ -285,6 +358,10 @@ func runSegment(c *hx.Ctx) {
 		}
 	}
 	fills := []string{"rand", "rand", "rand", "ff", "zero", "mostly-ff"}
+	setLiteral := func(s *segSpec) {
+		n := s.hl() + s.PayLen
+		s.Literal = n <= 600 || (n <= 3000 && c.Chance(0.15))
+	}
 
 	// budget: the Coq evaluation of one case costs about (#segments x packet length) list steps
 	const budget = 1500000
@@ -347,7 +424,8 @@ func runSegment(c *hx.Ctx) {
 		// keep the evaluation affordable: shrink the payload until #segments x length fits the budget
 		for {
 			n := (s.PayLen + s.GSO - 1) / s.GSO
-			if n*(s.PayLen+s.hl()) <= budget {
+			// ... and the observed headers (always literals) below ~8 KB per case
+			if n*(s.PayLen+s.hl()) <= budget && n*s.hl() <= 8000 {
 				break
 			}
 			s.PayLen /= 2
@@ -356,6 +434,8 @@ func runSegment(c *hx.Ctx) {
 		s.ID = edge16()
 		s.Seq = edge32()
 		s.Fill = fills[c.Intn(len(fills))]
+		s.PSeed = uint32(c.U64())
+		setLiteral(s)
 		return s
 	}
 
@@ -363,7 +443,7 @@ func runSegment(c *hx.Ctx) {
 	sweep := 0
 	// all 256 flag bytes on a three-segment TCP superpacket (first / middle / last rules), alternating v4/v6
 	for f := 0; f < 256; f++ {
-		s := &segSpec{V4: f%2 == 0, TCP: true, IHL: 5 + f%3, Doff: 5 + f%4, PayLen: 5, GSO: 2, Flags: f, ID: 0xfffe, Seq: 0xfffffffd, Fill: "rand"}
+		s := &segSpec{V4: f%2 == 0, TCP: true, IHL: 5 + f%3, Doff: 5 + f%4, PayLen: 5, GSO: 2, Flags: f, ID: 0xfffe, Seq: 0xfffffffd, Fill: "rand", PSeed: uint32(f), Literal: true}
 		pkt := segBuild(c, s)
 		if f%4 < 2 {
 			addDirect("sweep-flags", s, true, pkt, s.hl(), s.cs(), s.GSO, true)
@@ -376,17 +456,17 @@ func runSegment(c *hx.Ctx) {
 	for ihl := 5; ihl <= 15; ihl++ {
 		for _, doff := range []int{5, 8, 15} {
 			for _, pl := range []int{0, 1, 7} {
-				s := &segSpec{V4: true, TCP: true, IHL: ihl, Doff: doff, PayLen: pl, GSO: 3, Flags: 0x99, ID: 0xffff, Seq: 0xffffffff, Fill: "ff"}
+				s := &segSpec{V4: true, TCP: true, IHL: ihl, Doff: doff, PayLen: pl, GSO: 3, Flags: 0x99, ID: 0xffff, Seq: 0xffffffff, Fill: "ff", Literal: true}
 				addValidPipe("sweep-geom", s, segBuild(c, s))
 				sweep++
 			}
 		}
-		s := &segSpec{V4: true, TCP: false, IHL: ihl, PayLen: 9, GSO: 4, ID: 0xfffe, Fill: "rand"}
+		s := &segSpec{V4: true, TCP: false, IHL: ihl, PayLen: 9, GSO: 4, ID: 0xfffe, Fill: "rand", PSeed: uint32(ihl), Literal: true}
 		addValidPipe("sweep-geom", s, segBuild(c, s))
 		sweep++
 	}
 	for doff := 5; doff <= 15; doff++ {
-		s := &segSpec{V4: false, TCP: true, IHL: 5, Doff: doff, PayLen: 2*doff + 1, GSO: 5, Flags: 0xff, Seq: 0xfffffff0, Fill: "rand"}
+		s := &segSpec{V4: false, TCP: true, IHL: 5, Doff: doff, PayLen: 2*doff + 1, GSO: 5, Flags: 0xff, Seq: 0xfffffff0, Fill: "rand", PSeed: uint32(doff), Literal: true}
 		addValidPipe("sweep-geom", s, segBuild(c, s))
 		sweep++
 	}
@@ -403,12 +483,13 @@ func runSegment(c *hx.Ctx) {
 		if s.GSO < 2 {
 			s.GSO = 2 + c.Intn(1400)
 		}
-		for (s.PayLen+s.GSO-1)/s.GSO*(s.PayLen+s.hl()) > budget {
+		for (s.PayLen+s.GSO-1)/s.GSO*(s.PayLen+s.hl()) > budget || (s.PayLen+s.GSO-1)/s.GSO*s.hl() > 8000 || s.PayLen > 2500 {
 			s.PayLen /= 2
 		}
 		if s.PayLen < 2 {
 			s.PayLen = 2
 		}
+		s.Literal = true
 		pkt := segBuild(c, s)
 		if craftZero(s, pkt, k >= 16) {
 			addDirect("sweep-zero-csum", s, s.TCP, pkt, s.hl(), s.cs(), s.GSO, true)
@@ -419,7 +500,7 @@ func runSegment(c *hx.Ctx) {
 	}
 	// largest legal superpackets: 65535 bytes, gso 1460 and a segment size above 32767
 	for k := 0; k < 4; k++ {
-		s := &segSpec{V4: k%2 == 0, TCP: k < 2, IHL: 5, Doff: 5, GSO: []int{1460, 40000, 1460, 65000}[k], Flags: 0x18, ID: 0xfff0, Seq: 0xffffff00, Fill: "rand"}
+		s := &segSpec{V4: k%2 == 0, TCP: k < 2, IHL: 5, Doff: 5, GSO: []int{1460, 40000, 1460, 65000}[k], Flags: 0x18, ID: 0xfff0, Seq: 0xffffff00, Fill: "rand", PSeed: uint32(k)}
 		s.PayLen = 65535 - s.hl()
 		addValidPipe("sweep-max", s, segBuild(c, s))
 		sweep++
